@@ -140,10 +140,14 @@ Print Assumptions C13_forward_payload_unchanged.
    (authenticator included) in their order, followed by the receive-timestamp
    option when the kernel delivered one; otherwise - the packet has a
    hop-by-hop extension - NO option of the original packet: the hop-by-hop
-   extension and an end-to-end extension behind it are dropped, only the
-   timestamp option (if any) is sent, and NextHdr names what is sent.  A packet
-   with a hop-by-hop extension therefore loses its authenticator on the way
-   through the end-host port (observation, see DESIGN). *)
+   extension and an end-to-end extension behind it are dropped; with a
+   timestamp a fresh end-to-end extension holding only the timestamp option is
+   sent, without one the packet goes out as SCION/UDP; NextHdr names what is
+   sent.  (Before the repair of the forwarding branch NextHdr kept naming the
+   hop-by-hop extension in the last case and the datagram did not parse: found
+   by kind srv.fwdhbh.)  A packet with a hop-by-hop extension therefore loses
+   its authenticator on the way through the end-host port (observation, see
+   DESIGN). *)
 Theorem C13_forward_extensions : forall q oob,
   let ts := mkOpt OPT_TIMESTAMP oob in
   let t := forward_tx q oob in
@@ -151,7 +155,7 @@ Theorem C13_forward_extensions : forall q oob,
      h_next (tx_hdr t) = E2E_CLASS /\
      tx_e2e t = Some (rx_opts q ++ (if zlen oob =? 0 then [] else [ts]))) /\
   (h_next (rx_hdr q) <> E2E_CLASS ->
-     (zlen oob = 0 -> tx_e2e t = None /\ h_next (tx_hdr t) = h_next (rx_hdr q)) /\
+     (zlen oob = 0 -> tx_e2e t = None /\ h_next (tx_hdr t) = L4_UDP) /\
      (zlen oob <> 0 -> tx_e2e t = Some [ts] /\ h_next (tx_hdr t) = E2E_CLASS)).
 Proof. exact forward_extensions. Qed.
 Print Assumptions C13_forward_extensions.
